@@ -192,7 +192,7 @@ prop('C12', 'pconc', 'exploration',
      'three rapid properties in a binary built with -race (checkptr off, because the library\'s unaligned unsafe casts trip it): (1) ParOr/ParHeapOr/ParAnd/roaring64.ParOr over generated lists (0..6 members incl. empties and pointer duplicates, key windows of 1..260 keys at the bottom/middle/top of the key space: zero work items up to more items than every channel capacity) x workers {0,1,2,3,8,16} x GOMAXPROCS {1,2,4,16} x 1-3 repetitions x (half of the cases) a generated per-site delay table applied through the verif scheduling hook (nothing / Gosched / 5x Gosched / 20us / 300us sleep before each channel operation of the library), optionally two concurrent callers sharing the inputs (inputs re-checked against their models afterwards), result == sequential model fold; '
      '(2) 2..8 goroutines decode their own streams concurrently through ReadFrom (yielding readers, pooled adapters), FromBuffer and FromUnsafeBytes after 0..4 failing decodes, each result must equal its own source; (3) the goroutine-parallel BSI paths (CompareValue, Sum, MinMax, TransposeWithCounts, BatchEqual, ParOr, ClearValues, NewBSIRetainSet) on up to 400 columns vs directly computed answers. '
      'Every call runs under a 90 s watchdog (expiry = deadlock/hang, library goroutine stacks dumped), the goroutine count must return to its baseline, and any race-detector report fails the run. Non-trivial = the call took a parallel path (>=2 keys / >=2 decoders / >=2 columns and workers != 1); distinct = FNV-64 of (list, fn, workers, GOMAXPROCS)',
-     T(8, 160, 16, 1500),
+     T(8, 160, 16, 1200),
      'property-based testing under the Go race detector with generated worker counts / GOMAXPROCS, watchdog and goroutine-leak accounting',
      'schedules are SAMPLED (GOMAXPROCS x workers x repetition x yielding readers x generated delay tables at the library\'s channel operations), not enumerated; the race detector reports only races on executed paths',
      'trusted: Go race detector; interval-set model; the scheduling hook perturbs, it does not control, the Go scheduler', COMMON_ASSUME, race=True, run='^TestC12')
